@@ -21,8 +21,9 @@ LEVEL_TEXT = (
 )
 LEVEL_NOTE = (
     "bounded by depth (2 quick / 3 thorough) and by the alphabet (scales on / around every matching scale, the "
-    "reference, both sides of m_tau; nf_to in {None,3,4,5,6}); merged states have equal futures because the "
-    "object's only mutable state is the memo dict and a_ref, both part of the state key"
+    "reference, short non-zero segments next to the reference and to a matching scale, both sides of m_tau; nf_to in "
+    "{None,3,4,5,6}); merged states have equal futures because the state key is a digest of every attribute of the "
+    "object (recursively), not only of the memo dict and a_ref"
 )
 FLOOR_NONTRIVIAL = 20
 
@@ -52,11 +53,25 @@ CONFIGS = [
 ]
 
 
+# short segments.  Couplings.a skips a segment only if its end points agree up to rounding (np.isclose, rtol 1e-14):
+#  * the neighbouring float of a scale: skipped although origin != target, nothing is memoised for it
+#  * a scale 1e-7 away (relative): an ordinary, memoised, very short evolution
+SHORT = 1e-7
+
+
+def _next(x, up=True):
+    return math.nextafter(x, math.inf if up else 0.0)
+
+
+def _exact_full():
+    return next(c for c in CONFIGS if c["method"] == "exact" and c["order"] == [3, 0])
+
+
 def scales_for(cfg, small):
     ref2 = cfg["ref"][0] ** 2
     if small:
-        return [ref2, WALLS[0], 1.1 * WALLS[1], 3.0, 3.3]
-    out = [ref2, 3.0, 3.3]
+        return [ref2, WALLS[0], 1.1 * WALLS[1], 3.0, 3.3, _next(ref2)]
+    out = [ref2, 3.0, 3.3, ref2 * (1 + SHORT), _next(WALLS[1], up=False)]
     for w in WALLS:
         out += [0.9 * w, w, 1.1 * w]
     return out
@@ -90,14 +105,43 @@ def _fresh_answer(cfg, op):
     return _FRESH[key]
 
 
+def _canon(o, depth=0):
+    """Canonical text of everything reachable from an attribute value (arrays by their bytes)."""
+    import logging
+
+    import numpy as np
+
+    if depth > 6:
+        return "<deep>"
+    if isinstance(o, np.ndarray):
+        return f"nd{o.dtype}{o.shape}:{o.tobytes().hex()}"
+    if isinstance(o, (np.floating, float)):
+        return "f:" + float(o).hex()
+    if isinstance(o, (np.integer, int, bool, str, bytes)) or o is None:
+        return f"{type(o).__name__}:{o!r}"
+    if isinstance(o, dict):
+        items = sorted((_canon(k, depth + 1), _canon(v, depth + 1)) for k, v in o.items())
+        return "{" + ",".join(f"{k}=>{v}" for k, v in items) + "}"
+    if isinstance(o, (list, tuple)):
+        return f"{type(o).__name__}[" + ",".join(_canon(v, depth + 1) for v in o) + "]"
+    if isinstance(o, (set, frozenset)):
+        return "set[" + ",".join(sorted(_canon(v, depth + 1) for v in o)) + "]"
+    if isinstance(o, (logging.Logger, type)) or callable(o):
+        return f"<{type(o).__name__}>"
+    if hasattr(o, "__dict__"):
+        return f"{type(o).__name__}(" + _canon(vars(o), depth + 1) + ")"
+    if hasattr(o, "__slots__"):
+        return f"{type(o).__name__}(" + _canon({k: getattr(o, k, None) for k in o.__slots__}, depth + 1) + ")"
+    return f"{type(o).__name__}:{o!r}"
+
+
 def _state_key(c, last_op):
+    """Everything the object carries (every attribute, recursively: memo, a_ref, atlas walls and origin, ratios, order,
+    method, scheme, flags, and whatever a later version adds), so that two histories are merged only if NOTHING
+    observable in the object distinguishes them."""
     h = hashlib.sha1()
-    keys = sorted(c.cache.keys(), key=repr)
-    for k in keys:
-        h.update(repr(k).encode())
-        h.update(c.cache[k].tobytes())
-    h.update(c.a_ref.tobytes())
-    return f"{len(keys)}:{h.hexdigest()[:20]}:{last_op!r}"
+    h.update(_canon(vars(c)).encode())
+    return f"{len(c.cache)}:{h.hexdigest()[:20]}:{last_op!r}"
 
 
 def evaluate(case):
@@ -208,17 +252,28 @@ def run(ctx):
         tiny = [["q", cfg["ref"][0] ** 2, cfg["ref"][1]], ["q", 3.0, None], ["q", 1.1 * WALLS[1], None], ["mut"]]
         deep = (4 if exact else 5) + (1 if thorough else 0)
         hist.bfs(ctx, tiny, evaluate, deep, init_key="<deep>", extra_case={"cfg": cfg})
+        # the same with a short segment (skipped although not of zero length: the float next to the bottom wall) in the
+        # alphabet, one level less deep
+        tiny5 = tiny[:3] + [["q", _next(WALLS[1]), None], ["mut"]]
+        hist.bfs(ctx, tiny5, evaluate, deep - 1, init_key="<deep5>", extra_case={"cfg": cfg})
+        if thorough and exact and cfg is _exact_full():
+            # one exact-method object with the full alphabet (nf_to = 3 / 6: two matchings behind a memoised segment)
+            hist.bfs(ctx, alphabet_for(cfg, False), evaluate, 2, init_key="<full>", extra_case={"cfg": cfg})
         sizes.append(len(alpha))
         nconf += 1
     ctx.rule = (
         f"{nconf} object configurations (orders (1,0),(2,0),(3,0),(4,0),(2,1),(3,2),(4,2) x exact/expanded x em_running x "
         "POLE/MSBAR, reference inside a patch / on a matching scale / with non-default or default nf, matching ratios "
-        "2, 0.5, 1); alphabet = query (scale, nf_to) with scale in {reference, 0.9/1/1.1 x each matching scale, 3.0 and 3.3 "
-        "GeV^2 around m_tau^2} x nf_to in {None,3,4,5,6} (61 letters; exact-method objects: 5 scales x "
-        "{None,4,5} = 16 letters) + 'overwrite the previously returned array with NaN'; BFS to depth 2 (quick) / [plus a second BFS on a 4-letter alphabet (reference point, 3.0, 1.1 x bottom wall, mutation) to depth 5 (exact objects 4), thorough +1] "
-        "depth 3 (thorough), every explored history closed by a probe repeating its queries; states deduplicated on (memo keys, "
-        "memo values, a_ref, last op); non-trivial = a query answered entirely from the memo, or a caller mutation "
-        "after a query"
+        "2, 0.5, 1); alphabet = query (scale, nf_to) with scale in {reference, reference x (1+1e-7) (a very short evolved segment), "
+        "the float just below the bottom wall (a segment skipped although not of zero length), 0.9/1/1.1 x each matching scale, 3.0 and 3.3 "
+        "GeV^2 around m_tau^2} x nf_to in {None,3,4,5,6} (71 letters; exact-method objects: 6 scales (short one: the float just above "
+        "the reference) x {None,4,5} = 19 letters) + 'overwrite the previously returned array with NaN'; BFS to depth 2 (quick) / "
+        "depth 3 (thorough); plus a second BFS on a 4-letter alphabet (reference point, 3.0, 1.1 x bottom wall, mutation) to depth 5 "
+        "(exact objects 4), thorough +1; plus a third BFS on that alphabet extended by the short-segment query 'float just above the bottom wall' "
+        "(5 letters) to depth 4 (exact objects 3), thorough +1; thorough: one exact-method object also with the full 71-letter "
+        "alphabet to depth 2. Every explored history is closed by a probe repeating its queries; states deduplicated on "
+        "(every attribute of the object recursively - memo keys and values, a_ref, atlas, ratios, order, method, flags - and the last op); "
+        "non-trivial = a query answered entirely from the memo, or a caller mutation after a query"
     )
     ctx.assumptions += [
         "bit-identity with a fresh object's answer is the oracle (the fresh object itself is C15/C16's subject)",
